@@ -12,6 +12,10 @@
 From EG Require Import Base.Prelude Base.Casts Model.Geometry Model.Rrect Model.Rawdata Model.Imageraw Model.Fontmodel.
 From EG Require Import Gen.SrcGeometry Gen.SrcImage Gen.SrcRawIter Gen.SrcImagePixels Gen.SrcFont Gen.SrcText Gen.SrcGlyph Gen.SrcCircle Gen.SrcRrect Gen.SrcRrect2 Gen.SrcImageDraw.
 From EG Require Import Proofs.SrcGeometry Proofs.SrcImagePixels Proofs.SrcImageDraw.
+From EG Require Import Proofs.SrcImageRun.
+(* Model/Imageraw.v fixes usize at 64 bit; the generated definitions that depend on the width of usize (nth: saturating_add)
+   are taken at that width (Casts.usize64_w) *)
+#[local] Existing Instance Casts.usize64_w.
 
 Theorem C09_src_pixel_is_model : forall img p,
   0 <= sw (ir_size img) <= i32_max -> 0 <= sh (ir_size img) <= i32_max -> 0 < ir_bpp img <= u32_max ->
@@ -50,7 +54,7 @@ Theorem C09_src_sub_image_new_is_model : forall img area, size_i32 (ir_size img)
 Proof. exact src_sub_image_new_eq. Qed.
 
 Theorem C09_src_sub_image_draw_is_model : forall s,
-  img_ok (SubImage_ImageRaw_parent s) -> size_i32 (sz (SubImage_ImageRaw_area s)) ->
+  src_img_ok (SubImage_ImageRaw_parent s) -> size_i32 (sz (SubImage_ImageRaw_area s)) ->
   px (tl (SubImage_ImageRaw_area s)) <= i32_max -> py (tl (SubImage_ImageRaw_area s)) <= i32_max ->
   let img := SubImage_ImageRaw_parent s in
   let r := src_SubImage_ImageRaw_draw (raw_load (ir_bpp img) (ir_alt img)) (ir_bpp img) log_fill s [] in
@@ -58,13 +62,34 @@ Theorem C09_src_sub_image_draw_is_model : forall s,
 Proof. exact src_sub_image_draw_eq. Qed.
 
 Theorem C09_src_sub_image_draw_sub_image_is_model : forall s area,
-  img_ok (SubImage_ImageRaw_parent s) ->
+  src_img_ok (SubImage_ImageRaw_parent s) ->
   let a := translate_rect area (tl (SubImage_ImageRaw_area s)) in
   size_i32 (sz a) -> px (tl a) <= i32_max -> py (tl a) <= i32_max ->
   let img := SubImage_ImageRaw_parent s in
   let r := src_SubImage_ImageRaw_draw_sub_image (raw_load (ir_bpp img) (ir_alt img)) (ir_bpp img) log_fill s [] area in
   map (call_of img) (fst r) = d_draw_sub_image (drawable_of s) area /\ snd r = inl tt.
 Proof. exact src_sub_image_draw_sub_image_eq. Qed.
+
+(* round 5: OriginDimensions::size of a sub image is the size of its area (sub_image.rs) *)
+Theorem C09_src_sub_image_size_is_area_size : forall s, src_SubImage_ImageRaw_size s = sz (SubImage_ImageRaw_area s).
+Proof. reflexivity. Qed.
+
+(* round 5: the RUN of the generated ContiguousPixels::next.  src_cp_collect n (Proofs/SrcImageRun.v) drives it until its first None
+   (None = the step budget n ran out first); it equals the model's cp_run for EVERY budget, so with the model's budget cp_fuel it
+   yields cp_list - the colour list that call_of (above) reads off the initial state of the iterator handed to fill_contiguous *)
+Theorem C09_src_contiguous_pixels_run_is_model : forall img n c,
+  it_data (ContiguousPixels_iter c) = ir_data img -> 0 <= it_index (ContiguousPixels_iter c) -> 0 <= ContiguousPixels_row_skip c ->
+  src_cp_collect (raw_load (ir_bpp img) (ir_alt img)) (fun x => x) n c = cp_run n img (cp_of c).
+Proof. exact src_cp_collect_eq. Qed.
+Theorem C09_src_contiguous_pixels_run_is_cp_list : forall img c,
+  it_data (ContiguousPixels_iter c) = ir_data img -> 0 <= it_index (ContiguousPixels_iter c) -> 0 <= ContiguousPixels_row_skip c ->
+  match src_cp_collect (raw_load (ir_bpp img) (ir_alt img)) (fun x => x) (cp_fuel (cp_of c)) c with Some l => l | None => [] end
+  = cp_list img (cp_of c).
+Proof. exact src_cp_collect_list. Qed.
+Theorem C09_src_contiguous_pixels_new_run_is_model : forall img s skip rs, 0 <= skip -> 0 <= rs -> forall n,
+  src_cp_collect (raw_load (ir_bpp img) (ir_alt img)) (fun x => x) n (src_ContiguousPixels_new (raw_load (ir_bpp img) (ir_alt img)) img s skip rs)
+  = cp_run n img (cp_new img s skip rs).
+Proof. exact src_cp_new_collect. Qed.
 
 Example C09_src_draw_nonvacuous :
   let img := IR [165; 90] (Geometry.S 4 2) 2 false in
